@@ -250,19 +250,27 @@ def handleRulesets (j : Json) : R Json := do
   let cfg ← cfgOfJson j
   let parsed := parsedShipped cfg
   let reqs ← listOf reqOfJson (← fld j "steps")
+  let checks ← listOf (fun s => pure ((s.getObjVal? "check").toOption == some (Json.bool true))) (← fld j "steps")
   -- the model: one process, requests in order; a failing request leaves the state alone
   let mut st : State := {}
   let mut handed : List (Option RS) := []
   let mut stepsOut : List Json := []
-  for q in reqs do
+  for (q, chk) in reqs.zip checks do
+    let mut extra : List (String × Json) := []
+    if chk then
+      match checkOptions parsed cfg.cats q st with
+      | .ok (b, st') =>
+        st := st'
+        extra := [("check", toJson b)]
+      | .error e => extra := [("check", Json.str e.name)]
     match getRuleset parsed q st with
     | .ok (rs, st') =>
       st := st'
       handed := handed ++ [some rs]
-      stepsOut := stepsOut ++ [jObj [("rules", rulesJson (rs.read st.heap))]]
+      stepsOut := stepsOut ++ [jObj ([("rules", rulesJson (rs.read st.heap))] ++ extra)]
     | .error e =>
       handed := handed ++ [none]
-      stepsOut := stepsOut ++ [jObj [("err", Json.str e.name)]]
+      stepsOut := stepsOut ++ [jObj ([("err", Json.str e.name)] ++ extra)]
   let finalOut := handed.map fun o => match o with
     | some rs => rulesJson (rs.read st.heap)
     | none => Json.null
@@ -284,8 +292,14 @@ def handleRulesets (j : Json) : R Json := do
   let finalObs := implFinal.map fun o => match o with
     | Json.null => Json.null
     | o => jObj [("rules", o)]
+  -- `check_options` let the options through iff they are fine
+  let checkSpec : List Json := (reqs.zip implSteps).map fun (q, o) =>
+    match (o.getObjVal? "check").toOption, parsed q.strictness with
+    | some (Json.bool b), .ok rules => toJson (b == optionsOk rules cfg.cats q)
+    | _, _ => Json.null
   return jObj [("model", jObj [("steps", jArr stepsOut), ("final", jArr finalOut)]),
-               ("spec", jObj [("steps", jArr (← check implSteps)), ("final", jArr (← check finalObs))])]
+               ("spec", jObj [("steps", jArr (← check implSteps)), ("final", jArr (← check finalObs)),
+                              ("checks", jArr checkSpec)])]
 
 open ASV.Rulesets in
 def handleFromFiles (j : Json) : R Json := do
